@@ -273,13 +273,24 @@ func init() {
 					// top-level alternation
 					t = "/" + genRegexBody(g, 1) + "|" + genRegexBody(g, 1) + "/"
 				}
+				urls := []string{genURL(g), genURL(g)}
+				if g.Chance(1, 12) {
+					// \Q...\E quoting (upper-case escapes: the pattern's letter case is part of its meaning), with a quantifier
+					// right after \E that applies to the last quoted character only
+					a, b := Pick(g, fragPool), Pick(g, fragPool)
+					q := Pick(g, []string{"*", "{0,2}", "+", "", "{0,1}", "*", "{0}"})
+					t = "/" + Pick(g, []string{"", regexp.QuoteMeta(Pick(g, fragPool))}) + `\Q` + a + `\E` + q + regexp.QuoteMeta(b) + "/"
+					if len(a) > 0 {
+						urls = []string{"http://h.org/" + a[:len(a)-1] + b, "http://h.org/" + a + b, "http://h.org/x" + a + a[len(a)-1:] + b}
+					}
+				}
 				if g.Chance(1, 2) {
 					t += "$domain=x.org"
 					if g.Chance(1, 4) {
 						t += ",match-case"
 					}
 				}
-				emit("regex\t" + hx(t) + "\t" + encList([]string{genURL(g), genURL(g)}))
+				emit("regex\t" + hx(t) + "\t" + encList(urls))
 			}
 		},
 		Run: func(line string, st *Stats) (string, string, bool) {
